@@ -236,6 +236,8 @@ def temp_profile(spec, N):
     elif name == 'hot1':
         arr = np.full(N, 700.0)
         arr[N // 2] = 2200.0
+    elif name == 'steps':            # adjacent layers pairwise at exactly the same temperature
+        arr = np.repeat(np.linspace(1700.0, 500.0, (N + 1) // 2), 2)[:N]
     elif name == 'outside':          # partly outside the 200..2500 K table range
         arr = np.linspace(3000.0, 150.0, N)
     else:
